@@ -353,6 +353,12 @@ def placement_tag(A, B):
 def check(run):
     run.prove(MODULE, THEOREMS)
     run.source_tie(['SrcRelate'], 'GeoVerif.Props.C02Src', ['GV.C02Src.' + t for t in ('isOnSegment_eq', 'touches_loop_eq', 'touchesCoordinate_eq', 'containsPoint_eq', 'containsPoly_eq', 'containsLine_eq', 'containsMulti_eq', 'intersectsMulti_eq', 'intersectsPoint_eq', 'intersectsPoly_eq', 'intersectsLine_eq', 'lineContainsPoint_eq', 'lineContainsLine_eq', 'lineContainsPoly_eq', 'lineContainsMulti_eq', 'lineIntersectsMulti_eq', 'lineIntersectsPoint_eq', 'lineIntersectsPoly_eq', 'lineIntersectsLine_eq', 'pointContainsPoint_eq', 'pointContainsOther_eq', 'pointIntersectsPoint_eq', 'pointIntersects_delegates', 'pointContainsMulti_eq', 'src_contains_imp_intersects')])
+    # `_geometry.py` itself: bounds overlap, antimeridian un-wrapping, segment intersection and the edge sweep (incl. its local
+    # `_Event` class and `_create_events`), translated and proved equal to Model/SegInt + Model/Sweep
+    run.source_tie(['SrcSweep'], 'GeoVerif.Props.C02SrcSweep', ['GV.C02SrcSweep.' + t for t in (
+        'doBoundsOverlap_eq', 'ensureEdgeBounds_eq', 'findLineIntersection_eq', 'findLineIntersection_eq_model', 'event_hash_iff',
+        'lt_eq', 'create_events_eq', 'loop2_eq', 'loop1_eq', 'doEdgesIntersect_eq_sweep', 'doEdgesIntersect_eq_model',
+        'src_findLineIntersection_isSome_iff', 'src_sweep_eq_anyCross')])
     run.corpus(impl, spec)
     rng = run.rng
 
